@@ -6,8 +6,17 @@
   down list, close discipline, membership) is preserved by every operation, for every legal
   `random.randint` draw; from it the choice made by `get` and the executable specification
   `specC03` follow.  Hypothesis throughout: fewer than 2^31−1 dispatches in the history.
+
+  `ApertureBalancerSink` inherits `__Get`; its `_OnNodeDown` hook (called inside the mark-down loop) makes
+  the aperture take in an idle endpoint: `_AddSink` appends a node and sifts it up.  The `C03_aperture_*`
+  theorems decide the property on that balancer (and on the heap balancer behind base.py's gate): model
+  Model/LBBase.lean over Model/Aperture.lean over Model/Heap.lean, invariant `HInv` (= `Inv` without the
+  conjunct that ties `_servers` to the heap, which is false for an aperture), executable specification
+  `specC03A` (Adapter/ApertureHeap.lean), component `aperture3`.  The hook runs after `Heap.FixDown`
+  (`AS.getLoop`), i.e. on an ordered heap; that is what `C03_aperture_getLoop_ok` uses.
 -/
 import ScalesModel.Proofs.HeapMisc
+import ScalesModel.Proofs.LBHeap
 namespace Scales.Heap
 
 theorem C03_inv_init : Inv HS.init := Inv_init
@@ -101,5 +110,89 @@ example : (comp 3).wf () c03Hist = true := by
 example : Inv HS.init := C03_inv_init
 example : ∃ s : HS, Inv s ∧ s.size = 1 := ⟨HS.init.join 7, C03_inv_join _ 7 C03_inv_init, by
   simp [HS.join, HS.addSink, HS.fixUp, HS.init, HS.size]⟩
+
+/-! ### the balancers that inherit `__Get`: aperture balancer, heap balancer behind base.py's gate -/
+
+/-- the heap invariant holds after every legal operation list (`LB.wf`: protocol order, every recorded random
+    choice legal) with fewer than 2^31−1 dispatches: joins, leaves, requests before and after the open
+    result, completions, channel faults and recoveries, slow/failed opens, load-driven expansion and
+    contraction, jitter rounds -/
+theorem C03_aperture_inv_reachable (cfg : Scales.Aperture.Cfg) (ops : List Scales.LB.Op)
+    (h : Scales.LB.wfH cfg ops = true) :
+    HInv (Scales.LB.runSt cfg (Scales.LB.init cfg) ops).sub.hs := by
+  obtain ⟨hw, hb⟩ := (Scales.LB.wfH_iff cfg ops).1 h
+  exact (Scales.LB.run_HInv cfg ops _ _ (Scales.LB.RInv.init cfg) Scales.LB.HInv_init (Scales.LB.wf_proto hw) hb).1
+
+/-- **the mark-down loop with the aperture's hook in it.**  From a state with the invariant and a non-empty
+    heap, `__Get` leaves through its regular exit (the fuel `nodes + idle + 1` suffices: every round either
+    uses up a candidate or an idle endpoint), the invariant holds again although the hook has appended nodes
+    (it runs after `FixDown`, on an ordered heap), the chosen node is the root, which is Open or marked down,
+    no listed node is Open, no node left the heap, and the nodes created on the way are Idle -/
+theorem C03_aperture_getLoop_ok (cfg : Scales.Aperture.Cfg) (a : Scales.Aperture.AS)
+    (inv : Scales.Aperture.PInv cfg a) (h : HInv a.hs) (hsz : 1 ≤ a.hs.size) :
+    HInv (a.getLoop cfg (a.hs.nodes.length + a.idle.length + 1)).1.hs ∧
+    (a.getLoop cfg (a.hs.nodes.length + a.idle.length + 1)).2 =
+      (a.getLoop cfg (a.hs.nodes.length + a.idle.length + 1)).1.hs.idAt 1 ∧
+    (((a.getLoop cfg (a.hs.nodes.length + a.idle.length + 1)).1.hs.node
+        (a.getLoop cfg (a.hs.nodes.length + a.idle.length + 1)).2).chan = chOpen ∨
+      ((a.getLoop cfg (a.hs.nodes.length + a.idle.length + 1)).1.hs.node
+        (a.getLoop cfg (a.hs.nodes.length + a.idle.length + 1)).2).load ≥ 0) ∧
+    (∀ id ∈ (a.getLoop cfg (a.hs.nodes.length + a.idle.length + 1)).1.hs.down,
+      ((a.getLoop cfg (a.hs.nodes.length + a.idle.length + 1)).1.hs.node id).chan ≠ chOpen) ∧
+    (∀ id, InHeap a.hs id → InHeap (a.getLoop cfg (a.hs.nodes.length + a.idle.length + 1)).1.hs id) ∧
+    (∀ id, a.hs.nodes.length ≤ id → id < (a.getLoop cfg (a.hs.nodes.length + a.idle.length + 1)).1.hs.nodes.length →
+      ((a.getLoop cfg (a.hs.nodes.length + a.idle.length + 1)).1.hs.node id).chan = 1) := by
+  have gk := Scales.Aperture.getLoop_ok cfg (a.hs.nodes.length + a.idle.length + 1) a (List.range a.hs.nodes.length)
+    inv h hsz (fun id hin _ => List.mem_range.mpr (inHeap_lt a.hs h.wf id hin)) (by simp)
+  refine ⟨gk.hinv, gk.top, gk.ok, gk.scanned, gk.mf.old, ?_⟩
+  intro id h1 h2
+  rw [node_chan _ _ h2, gk.ch.getD]
+  unfold chans
+  simp only [List.getD_eq_getElem?_getD]
+  rw [List.getElem?_eq_none (by simpa using h1)]
+  rfl
+
+/-- **least-loaded dispatch on the aperture.**  `_AsyncProcessRequestImpl` answers `noMembers` exactly when
+    the aperture is empty; otherwise it answers a node that is a member of the aperture it started with or was
+    taken in on the way, and if any member it started with is Open, the chosen node is such a member, its
+    channel is Open and its outstanding count is minimal among the Open members; the invariant holds again -/
+theorem C03_aperture_get_least_loaded (cfg : Scales.Aperture.Cfg) (a : Scales.Aperture.AS)
+    (inv : Scales.Aperture.PInv cfg a) (h : HInv a.hs) (hb : a.hs.reqs.length + 1 < 2147483647) :
+    HInv (a.get cfg).1.hs ∧
+    ((a.get cfg).2 = GetRes.noMembers ↔ a.hs.size = 0) ∧
+    (∀ nid ep r, (a.get cfg).2 = GetRes.node nid ep r →
+      (InHeap a.hs nid ∨ a.hs.nodes.length ≤ nid) ∧
+      ((∃ m, InHeap a.hs m ∧ (a.hs.node m).chan = chOpen) →
+        InHeap a.hs nid ∧ (a.hs.node nid).chan = chOpen ∧
+        ∀ m, InHeap a.hs m → (a.hs.node m).chan = chOpen → outOf a.hs nid ≤ outOf a.hs m)) := by
+  obtain ⟨i, _, g0, g1⟩ := Scales.Aperture.get_ok cfg inv h (fun _ => hb)
+  exact ⟨i, g0, fun nid ep r hr => (g1 nid ep r hr).2⟩
+
+/-- **C03 on the aperture balancer, specification level.**  For every configuration (heap or aperture
+    balancer, any min_size/max_size/load band, slow or immediate channel opens, any initial server set) and
+    every operation list satisfying the component's hypothesis predicate `wfH` (= the hypotheses of C05/C06 and
+    fewer than 2^31−1 dispatches), the history of the model satisfies the executable specification `specC03A`,
+    the predicate `./check C03` evaluates on the real balancer's observations (component `aperture3`). -/
+theorem C03_aperture_model_satisfies_spec (cfg : Scales.Aperture.Cfg) (ops : List Scales.LB.Op)
+    (h : Scales.LB.comp3A.wf cfg ops = true) :
+    Scales.LB.comp3A.spec cfg (Scales.LB.comp3A.modelTrace cfg ops) = Verdict.ok := by
+  have h' : Scales.LB.wfH cfg ops = true := h
+  obtain ⟨hw, hb⟩ := (Scales.LB.wfH_iff cfg ops).1 h'
+  exact Scales.LB.specC03A_trace cfg ops _ _ {} 0 (Scales.LB.RInv.init cfg) Scales.LB.HInv_init
+    Scales.LB.Sim3.init (Scales.LB.wf_proto hw) hb
+
+/-! non-vacuity: an aperture of min_size 2 over three members; one request outstanding on node 0; node 1 (the
+    root) faults; the next request marks it down inside `__Get`, the hook takes in the idle endpoint 2 as node 2
+    (appended and sifted up after `FixDown`), node 2 is not open yet and is marked down in the next round,
+    the request goes to node 0; then a completion -/
+def c03ApCfg : Scales.Aperture.Cfg := ⟨true, 2, 10, 1 / 2, 2, false, [0, 1, 2]⟩
+def c03ApHist : List Scales.LB.Op :=
+  [.opn, .loaded [0, 1, 2] ⟨[], []⟩, .chan 0 2, .chan 1 2, .get ⟨[], [⟨0, 0⟩]⟩, .chan 1 4,
+   .get ⟨[2], [⟨0, 0⟩]⟩, .put 0 0 ⟨[], [⟨0, 0⟩]⟩]
+
+example : Scales.LB.comp3A.wf c03ApCfg c03ApHist = true := by decide +kernel
+example : (Scales.LB.runSt c03ApCfg (Scales.LB.init c03ApCfg) c03ApHist).sub.hs.size = 3 ∧
+    (Scales.LB.runSt c03ApCfg (Scales.LB.init c03ApCfg) c03ApHist).sub.hs.down = [2, 1] ∧
+    (Scales.LB.runSt c03ApCfg (Scales.LB.init c03ApCfg) c03ApHist).sub.idle = [] := by decide +kernel
 
 end Scales.Heap
